@@ -8,6 +8,9 @@ use serde::{Deserialize, Serialize};
 use serde_json::Value;
 use uuid::Uuid;
 
+#[cfg(rip_verif)]
+pub mod verif;
+
 pub use commands::{Command, CommandContext, CommandHandler, CommandRegistry, CommandResult};
 pub use hooks::{Hook, HookContext, HookEngine, HookEventKind, HookHandler, HookOutcome};
 
